@@ -54,8 +54,8 @@ Section Model.
     snd (fold_left (fun acc x => let st' := hpf_iter alpha (fst acc) x in (st', snd acc ++ [fst st'])) xs (st, [])).
 
   (* A_1_TAU = 0.159154943091895335769 and A_TAU = 6.28318530717958647693 as the binary64 values the compiler uses *)
-  Definition c_1_tau : T := ofD O 0x145f306dc9c883 (-55).
-  Definition c_tau : T := ofD O 0x1921fb54442d18 (-50).
+  Definition c_1_tau : T := ofD O 5734161139222659 (-55).    (* = 0x145f306dc9c883 * 2^-55 *)
+  Definition c_tau : T := ofD O 884279719003555 (-47).     (* = 0x1921fb54442d18 * 2^-50, odd mantissa form *)
 
   Definition lpf_gen (fc ts : T) : T := ts / (c_1_tau / fc + ts).
   Definition hpf_gen (fc ts : T) : T := #1 / (c_tau * fc * ts + #1).
